@@ -14,7 +14,8 @@ EXPLANATION = (
     "hands the new book to the market object or closes the market; nothing but the emptiness of the queue "
     "skips the release step, and the simulated handlers read the market's stored (previous) book; (R2) the "
     "release loop scans the whole queue without early exit and releases a package iff it belongs to the "
-    "market and elapsed > delay (strict), removing exactly the released ones; (R3) the delay table is PLACE "
+    "market and elapsed > delay (strict), removing exactly the released ones and never changing the queue "
+    "while it is being iterated; (R3) the delay table is PLACE "
     "place_latency + bet_delay, CANCEL cancel_latency, UPDATE update_latency, REPLACE replace_latency + "
     "bet_delay, computed once from the book's bet delay at request time, and elapsed time is measured on the "
     "framework clock from the package's creation; (R4) in simulation a package is only queued - the "
